@@ -301,6 +301,7 @@ def run(res, ctx):
         spec = check_spec(res, tables, pub_bl, mgr, drv, scratch)
         fired = check_triggers(res, tables, pub_pl, scratch, spec)
         check_published(res, tables, pub_bl, scratch, drv)
+        check_published_after_restricted_scan(res, pub_bl, scratch)
         check_naming(res, tables, fired, scratch, drv, thorough)
         check_get_url(res, tables, mgr, docs_utils, drv, snap)
     finally:
@@ -456,6 +457,13 @@ def check_published(res, tables, pub, scratch, drv):
             for q in p["qualnames"]:
                 prog, line = import_from_trigger(q) if kind == "ImportFrom" else blacklist_trigger([kind], q)
                 cases.append((p, kind, q, prog, line))
+                if kind == "Call" and "." in q:
+                    # the published rule is about the qualified name being called, however (or whether) the file imports the module: helper functions above
+                    # the import block, a module bound dynamically, a snippet without imports (seeded change C18-m10 required an import statement above the call)
+                    mod, top = q.rsplit(".", 1)[0], q.split(".")[0]
+                    cases.append((p, kind, q, f"def helper_(x):\n    return {q}(x)\n\n\nimport {mod}\n", 2))
+                    cases.append((p, kind, q, f"import importlib\n{top} = importlib.import_module('{top}')\nr_ = {q}(x)\n", 3))
+                    cases.append((p, kind, q, f"r_ = {q}(x)\n", 1))
     out, errs = scan_batch(scratch, [c[3] for c in cases])
     model = None
     if drv:
@@ -480,6 +488,47 @@ def check_published(res, tables, pub, scratch, drv):
                 mf = sorted((f[0], f[1], f[2], f[3]) for f in m["findings"] if f[0] in blids)
                 if rf != mf:
                     res.break_("correspondence:blacklist-scan", json.dumps({"program": prog, "real": rf, "model": mf}))
+
+
+def check_published_after_restricted_scan(res, pub, scratch):
+    """In a FRESH interpreter: first a scan under a narrow selection, then every published rule's trigger under the default selection.  What the first scan
+    built must not decide what the second enforces (seeded change C18-m9: a qualified-name index cached on the shared blacklist function by the first test set)."""
+    import subprocess, sys
+    lines, expect = [], []
+    for p in pub["rules"]:
+        if "Call" in p["kinds"] and "Import" not in p["kinds"]:
+            for q in p["qualnames"]:
+                lines.append(f"{q}(x)")
+                expect.append((p["id"], len(lines)))
+        elif "Import" in p["kinds"]:
+            for q in p["qualnames"]:
+                lines.append(f"__import__('{q}')")
+                expect.append((p["id"], len(lines)))
+    big = scratch.fresh("all_published.py", ("\n".join(lines) + "\n").encode())
+    small = scratch.fresh("first.py", b"import pickle\npickle.loads(b)\nimport os\nos.system(c)\n")
+    script = scratch.fresh("restricted_first.py", (
+        "import sys, json\nsys.path[:0] = %r\nfrom bandit.core import config as b_config, manager as b_manager\n"
+        "for first in json.loads(sys.argv[3]):\n"
+        "    m = b_manager.BanditManager(b_config.BanditConfig(), 'file', profile={k: set(v) for k, v in first.items()})\n"
+        "    m.discover_files([sys.argv[1]]); m.run_tests()\n"
+        "m = b_manager.BanditManager(b_config.BanditConfig(), 'file')\nm.discover_files([sys.argv[2]]); m.run_tests()\n"
+        "print(json.dumps(sorted([r.test_id, r.lineno] for r in m.results)))\n" % ([os.environ["PYTHONPATH"].split(os.pathsep)[0], C.REPO],)).encode())
+    for label, firsts in (("include-B301", [{"include": ["B301"]}]), ("exclude-B001", [{"exclude": ["B001"]}]), ("include-plugins-only", [{"include": ["B101", "B602"]}]),
+                          ("two-narrow-scans", [{"include": ["B403"]}, {"include": ["B605", "B307"]}])):
+        pr = subprocess.run([sys.executable, script, small, big, json.dumps(firsts)], capture_output=True, text=True, timeout=300)
+        res.case("published-after-restricted:" + label, True)
+        res.count("published-after-restricted")
+        try:
+            got = {tuple(x) for x in json.loads(pr.stdout)}
+        except ValueError:
+            res.break_("published-after-restricted:subprocess-failed", pr.stderr[-400:])
+            continue
+        missing = [e for e in expect if e not in got]
+        if missing:
+            res.violation("published rules are no longer enforced by a default scan that follows a scan under a narrower selection in the same process",
+                          {"kind": "history", "first_scans (profiles)": firsts, "first_file": "import pickle / pickle.loads(b) / import os / os.system(c)",
+                           "then": "default-profile scan of one line per published (id, qualified name): `<qualname>(x)` / `__import__('<module>')`",
+                           "not_reported (id, line)": missing[:20], "n_missing": len(missing), "n_expected": len(expect)})
 
 
 # ---- (3c) naming by ID vs by name
